@@ -20,6 +20,9 @@ meta = {
                  "by tools/seedtest.sh (scratch worktree of /repo + VERIF_REPO, /verif snapshot)",
     "ran": "tools/seedtest.sh seeded/%s-%s/patch.diff %s (quick tier)" % (pid, k, " ".join(detected)),
     "detected_by": detected,
+    "confirmed_here": "tools/confirm_seed.sh (scratch worktree of /repo): patch applies, builds with default and full "
+                      "features, the 77 baseline tests pass, demo.rs fails with the patch and passes without - see "
+                      "confirm.json",
 }
 if note:
     meta["note"] = note
